@@ -27,4 +27,13 @@ var props = map[string]propCfg{
 		Assume:    append([]string{"equality is json.Marshal(decoded)==json.Marshal(original) plus identical dynamic type; interface{} fields hold JSON-normalised values", "(0,nil) bursts stay below bufio's 100-empty-read limit; (0,io.EOF) is only injected as a permanent cut"}, commonAssume...),
 		StateRule: "none (stateless codec)",
 	},
+	"C10": {
+		Flavor: "worker-plain", Level: "exploration",
+		QuickRuns: 1 << 30, QuickDL: 45 * time.Second, ThorDL: 30 * time.Minute, ThorSeeds: 5,
+		Rule: "a run = one tape-drawn configuration (allocator copy, initial/max pages, stack pointer, heap base incl. bases a few bytes below the end of memory, fixed-list capacity incl. 0) and 1..400 malloc/free operations (sizes biased to class boundaries, powers of two, page multiples; frees by LIFO/FIFO/random/address-adjacent policy) with memory.grow refused by the simulator at tape-chosen operations and the client filling every byte of every block; the full heap layout is re-derived from linear memory and checked after every operation. evaluations = runs, sim_steps = operations; non-trivial = at least 2 operations; distinct = distinct event-log digests.",
+		Real:      []string{"internal/waroot/malloc/malloc.wat (embedded template)", "waroot/src/runtime/heap_malloc.wat.ws (embedded std FS)", "watutil.Wat2Wasm", "vendored wazero"},
+		Stub:      []string{"memory.grow (host function that really grows or refuses)", "the client (fills payloads, frees live blocks only)", "loop fuel counter inserted at every WAT loop header (deterministic step bound)", "module wrapper for the runtime copy"},
+		Assume:    append([]string{"heap sizes up to 64 pages; requests up to the configured maximum memory (2^30-byte requests are not exercised in this tier)", "an exact fit below heap_top that the allocator treats conservatively (grows) is not demanded"}, commonAssume...),
+		StateRule: "abstract allocator state = (bucketed lengths of l24/l32/l48/l80, bucketed general-list length, bucketed live count, memory pages, fixed capacity)",
+	},
 }
